@@ -3,7 +3,7 @@
 set -e
 PROP=$1; FILE=$2; OLD=$3; NEW=$4
 rm -rf /var/tmp/mut /var/tmp/mutverif; rsync -a --exclude .git /repo/ /var/tmp/mut/
-mkdir -p /var/tmp/mutverif; cp -r /verif/spec /var/tmp/mutverif/; cp /verif/known_findings.json /var/tmp/mutverif/ 2>/dev/null || true
+mkdir -p /var/tmp/mutverif; cp -r /verif/spec /verif/bounded /var/tmp/mutverif/; cp /verif/known_findings.json /var/tmp/mutverif/ 2>/dev/null || true
 python3 - "$FILE" "$OLD" "$NEW" <<'PY'
 import sys
 f,old,new=sys.argv[1:4]
